@@ -195,3 +195,24 @@ Definition writebuf_engine (v : val) : val :=
       end
   | _ => bad_case
   end.
+
+(* ---------- transient write fault (engine flushfault) ----------
+   case = (thr reported written closed fault_consumed): one Write call of the connection failed while direct
+   acknowledgements were parked between queued publishes.  Clause 1 of the property at the final quiescent point:
+   unless the connection was closed, every packet reported as sent is on the wire (the packet whose own write
+   failed may be on the wire without having been reported: the retry flushes its bytes). *)
+Definition fault_ok (reported written : list N) (closed : bool) : bool :=
+  closed || forallb (fun k => mem_n k written) reported.
+
+(* ENGINE flushfault IO.WriteBuf.flushfault_engine *)
+Definition flushfault_engine (v : val) : val :=
+  match v with
+  | VL [VN _; rk; wk; cl; fc] =>
+      match as_NL rk, as_NL wk, as_bool cl, as_bool fc with
+      | Some r, Some w, Some c, Some f =>
+          let tg := if c then tag "closed" else if f then tag "fault-survived" else tag "no-fault" in
+          verdict (if fault_ok r w c then 0 else 1) tg (negb c && f && negb (is_nil r)) []
+      | _, _, _, _ => bad_case
+      end
+  | _ => bad_case
+  end.
